@@ -9,7 +9,7 @@ patch = os.path.join(out, "patch%s.diff" % i)
 demo = os.path.join(out, "demo%s_test.go" % i)
 wt = "/tmp/sc-%s/wt" % sid
 env = dict(os.environ, GOFLAGS="-mod=mod", GOPROXY="off")
-def sh(cmd, cwd=None, timeout=3000):
+def sh(cmd, cwd=None, timeout=4000):
     p = subprocess.run(cmd, cwd=cwd, env=env, stdout=subprocess.PIPE, stderr=subprocess.STDOUT, text=True, timeout=timeout, shell=isinstance(cmd, str))
     return p.returncode, p.stdout
 shutil.rmtree("/tmp/sc-%s" % sid, ignore_errors=True)
@@ -30,7 +30,7 @@ try:
     res["demo_output_tail"] = o[-600:]
     os.remove(os.path.join(wt, "zz_seed_demo_test.go"))
     t0 = time.time()
-    rc, o = sh("go build ./... && go test -vet=off -count=1 ./...", cwd=wt)
+    rc, o = sh("go build ./... && go test -vet=off -count=1 -timeout 40m ./...", cwd=wt)
     res["suite_with_change"] = "pass" if rc == 0 else "FAIL"
     res["suite_wall_s"] = round(time.time() - t0)
     if rc != 0:
@@ -50,5 +50,5 @@ if ok:
     notes = os.path.join(out, "notes%s.md" % i)
     needs = open(notes).read()[:3000] if os.path.exists(notes) else ""
     json.dump({"property": prop, "id": sid, "breaks": prop, "needs_to_manifest": needs,
-               "confirmed_by": "tools/seed_confirm.py in a scratch worktree: demo passes on unchanged code, fails with the change; `go build ./... && go test -vet=off -count=1 ./...` passes with the change",
+               "confirmed_by": "tools/seed_confirm.py in a scratch worktree: demo passes on unchanged code, fails with the change; `go build ./... && go test -vet=off -count=1 -timeout 40m ./...` passes with the change",
                "confirmation": res}, open(os.path.join(d, "meta.json"), "w"), indent=1)
